@@ -108,7 +108,7 @@ pub fn worker(_space: &str, idx: u64) -> Value {
     let cases = lib_cases();
     let (dir, extra) = &cases[idx as usize];
     match catch(std::panic::AssertUnwindSafe(|| hulc2model::collect_hulc_data(dir, *extra, *extra))) {
-        Ok(Ok(m)) => json!({"verdict": "ok", "json": m.as_json().unwrap_or_default()}),
+        Ok(Ok(m)) => json!({"verdict": "ok", "json": m.as_json().unwrap_or_default(), "debug": format!("{:?}", m)}),
         Ok(Err(e)) => json!({"verdict": "err", "msg": format!("{}", e)}),
         Err(p) => json!({"verdict": "panic", "panic": p, "exit_after": true}),
     }
@@ -171,6 +171,13 @@ pub fn run(ctx: &Ctx) -> i32 {
                         Ok(m) => {
                             if m.as_json().unwrap_or_default() != l["json"].as_str().unwrap_or("") {
                                 ctx.violation("hulc2model:model-differs-from-library", "the model on standard output differs from hulc2model::collect_hulc_data for the same directory", case());
+                            } else if l["debug"].as_str().map_or(false, |d| d != format!("{:?}", m)) {
+                                // the document loads, but not as the model the library holds in memory (something the
+                                // serialiser leaves out)
+                                let (a, b) = (format!("{:?}", m), l["debug"].as_str().unwrap_or("").to_string());
+                                let pos = a.bytes().zip(b.bytes()).position(|(x, y)| x != y).unwrap_or(a.len().min(b.len()));
+                                let at = |t: &str| t.chars().skip(pos.saturating_sub(60)).take(160).collect::<String>();
+                                ctx.violation("hulc2model:loaded-model-differs-from-library-model", &format!("standard output loads as a model that differs from the one the library yields: ...{}... vs library ...{}...", at(&a), at(&b)), case());
                             }
                         }
                     },
@@ -332,7 +339,7 @@ pub fn run(ctx: &Ctx) -> i32 {
     }
     ctx.finish(
         "exploration",
-        "every project directory (12 shipped incl. VyP and GT system sections + synthetic directories written by the generator, with and without KyG/tbl files) x {default, --use-extra}: hulc2model is run as a process (stdout captured, exit status) and compared with hulc2model::collect_hulc_data computed in a monitored worker process (any byte on fd 1 during the library call is a violation); stdout must parse as a whole as one JSON document and load as a model whose re-serialisation is byte-identical to the library's, also when the directory is named with a trailing slash or relative to the working directory, when RUST_LOG=trace is set, when the directory name holds blanks and non-ASCII letters, and when only one of the two result files exists; thor FILE -o OUT (OUT pre-existing and longer than any model) must leave exactly the library model JSON in the file and nothing on stdout; every scalar numeric attribute of the smallest shipped project set to 0 (library conversion in-process; where the model's JSON does not load back, the tool itself is run and judged); 7 kinds of non-project directory (empty, only a text file, a plain file, missing, truncated XML, project file in ISO-8859-1, project file that is a directory) x 2 flag sets must give a non-zero exit status and no JSON; the stdout monitor also runs over grey-box value substitutions (XML values replaced by the string literals the parser source branches on; 2 projects quick / all thorough) and, in thorough, over every 'remove one block' mutant of every shipped .ctehexml; non-trivial = convertible project run or non-project run",
+        "every project directory (12 shipped incl. VyP and GT system sections + synthetic directories written by the generator, with and without KyG/tbl files) x {default, --use-extra}: hulc2model is run as a process (stdout captured, exit status) and compared with hulc2model::collect_hulc_data computed in a monitored worker process (any byte on fd 1 during the library call is a violation); stdout must parse as a whole as one JSON document and load as a model whose re-serialisation is byte-identical to the library's and whose Debug text equals that of the library's in-memory model, also when the directory is named with a trailing slash or relative to the working directory, when RUST_LOG=trace is set, when the directory name holds blanks and non-ASCII letters, and when only one of the two result files exists; thor FILE -o OUT (OUT pre-existing and longer than any model) must leave exactly the library model JSON in the file and nothing on stdout; every scalar numeric attribute of the smallest shipped project set to 0 (library conversion in-process; where the model's JSON does not load back, the tool itself is run and judged); 7 kinds of non-project directory (empty, only a text file, a plain file, missing, truncated XML, project file in ISO-8859-1, project file that is a directory) x 2 flag sets must give a non-zero exit status and no JSON; the stdout monitor also runs over grey-box value substitutions (XML values replaced by the string literals the parser source branches on; 2 projects quick / all thorough) and, in thorough, over every 'remove one block' mutant of every shipped .ctehexml; non-trivial = convertible project run or non-project run",
         true,
         json!({}),
     )
